@@ -115,7 +115,7 @@ pub fn cfg() -> ModelRunCfg {
         probe: PROBE.into(),
         with_indicators: false,
         steps_per_job: 40,
-        job_timeout_ms: 120_000,
+        job_timeout_ms: 20_000,
         env: vec![],
         use_shim: false,
     }
@@ -197,9 +197,11 @@ pub fn run(tier: &str, seed: u64, replay: Option<String>) -> i32 {
     }
     let n_cells = cells.len();
     if !thorough {
+        // up to 40 per (generic path, edit kind) cell: small collections (schedules, constructions,
+        // the few walls of the small models) are covered completely even in the quick tier
         for (_, mut v) in cells {
             rng.shuffle(&mut v);
-            steps.extend(v.into_iter().take(2));
+            steps.extend(v.into_iter().take(40));
         }
     }
     let n_single = steps.len() - bases.len();
@@ -285,7 +287,7 @@ pub fn run(tier: &str, seed: u64, replay: Option<String>) -> i32 {
             super::c05::env_of(rng.next_u64() % 1000, None),
         ));
     }
-    let thr_out = super::c05::run_proc_jobs(&thr_cases, &scratch.dir);
+    let thr_out = super::c05::run_proc_jobs_t(&thr_cases, &scratch.dir, 45_000);
 
     let mut groups: BTreeMap<String, (Value, usize, Value, String, usize)> = BTreeMap::new();
     let mut thr_steps = 0u64;
@@ -459,14 +461,14 @@ pub fn run(tier: &str, seed: u64, replay: Option<String>) -> i32 {
         level: "exploration".into(),
         evaluations,
         distinct_nontrivial: descriptors.len() as u64,
-        rule: "history of (edit, recompute, healthy probe) steps in simulated long-lived processes: every single structural edit (delete key / array item, empty / duplicate / truncate array, redirect id to nil / fresh / other-collection id, zero / negate number) of every node of the shipped models and of the minimal editor-built models (thorough: all; quick: 2 per (generic path, edit kind) cell, all for the minimal models), seeded sets of 2..3 edits, seeded editor sessions from the empty model (every prefix recomputed). I1: the recompute returns; I2: the probe after every step equals its isolated reference; I3: inside the strict sanity predicate nothing non-finite and the indicators JSON loads back. Non-trivial and distinct = distinct (base, generic edit paths, content hash) whose mutated JSON loaded and differed from the base".into(),
+        rule: "history of (edit, recompute, healthy probe) steps in simulated long-lived processes: every single structural edit (delete key / array item, empty / duplicate / truncate array, redirect id to nil / fresh / other-collection id, zero / negate number) of every node of the shipped models and of the minimal editor-built models (thorough: all; quick: up to 40 per (generic path, edit kind) cell, all for the minimal models), seeded sets of 2..3 edits, seeded editor sessions from the empty model (every prefix recomputed). I1: the recompute returns; I2: the probe after every step equals its isolated reference; I3: inside the strict sanity predicate nothing non-finite and the indicators JSON loads back. Non-trivial and distinct = distinct (base, generic edit paths, content hash) whose mutated JSON loaded and differed from the base".into(),
         samples,
         exhaustive: false,
         extra,
         assumptions: vec![
             "the harness is built with unwinding so a panic can be observed and the process probed afterwards; in a release build (panic=abort) the same panic ends the process".into(),
             "I3 is only evaluated inside a deliberately strict sanity predicate (closure incl. schedules, positive sizes, non-negative physical data, schedules covering 365 / 7 / 24)".into(),
-            "hang detection is a wall-clock watchdog at 120 s per job of at most 40 steps (a healthy step takes milliseconds)".into(),
+            "hang detection is a wall-clock watchdog at 20 s per job of at most 40 steps (a healthy step takes milliseconds; the slowest healthy job observed takes under 1 s)".into(),
         ],
         wall_s: wall,
         violations: verdict.new_violations as u64,
